@@ -5,6 +5,7 @@ set -u
 export GOFLAGS=-mod=mod GOPROXY=off GOSUMDB=off GOTOOLCHAIN=local
 ID=$1; M=$2; TIER=${3:-quick}
 SRC=/tmp/mut/out/$ID; WT=/tmp/mut/$ID; DST=/verif/seeded/$ID-$M
+if [ "${ROUND:-1}" = 2 ]; then SRC=/tmp/mut/out2/$ID; DST=/verif/seeded/$ID-r2$M; fi
 [ -f "$SRC/$M.diff" ] || { echo "no $SRC/$M.diff"; exit 2; }
 mkdir -p "$DST"; cp "$SRC/$M.diff" "$DST/patch.diff"; rm -rf "$DST/demo"; cp -r "$SRC/${M}_demo" "$DST/demo" 2>/dev/null
 [ -d "$WT" ] || git -C /repo worktree add --detach "$WT" HEAD >/dev/null 2>&1
@@ -51,8 +52,8 @@ OUT=$(cd /verif && VERIF_REPO=$WT ./check "$ID" "$TIER" 2>&1); RC=$?
 echo "$OUT" | grep -E '^(summary|VIOLATION|KNOWN-FINDING|INCONCLUSIVE|BUILD-FAILED|violation-detail)' | cut -c1-500 | head -15 >> "$LOG"
 KEYS=$(echo "$OUT" | grep -o 'violation-detail property=[A-Z0-9]* key=[^ ]*' | sed 's/.*key=//' | sort | uniq -c | sort -rn | head -6 | awk '{print $2"x"$1}' | paste -sd, )
 git -C "$WT" checkout -q -- . ; git -C "$WT" clean -fdq
-echo "RESULT $ID-$M build=$RB demo_without=$R0 demo_with=$R1 unexpected_test_failures=[$FAILS] check_${TIER}_rc=$RC keys=[$KEYS]"
-python3 - "$DST" "$ID" "$M" "$TIER" "$RB" "$R0" "$R1" "$FAILS" "$RC" "$KEYS" "$SRC/$M.json" <<'PY'
+echo "RESULT ${DST##*/} build=$RB demo_without=$R0 demo_with=$R1 unexpected_test_failures=[$FAILS] check_${TIER}_rc=$RC keys=[$KEYS]"
+python3 - "$DST" "$ID" "${DST##*-}" "$TIER" "$RB" "$R0" "$R1" "$FAILS" "$RC" "$KEYS" "$SRC/$M.json" <<'PY'
 import json,sys,os
 dst,ID,M,tier,rb,r0,r1,fails,rc,keys,src=sys.argv[1:12]
 meta={}
